@@ -136,6 +136,47 @@ theorem stanzaHdrP_ok (parse : ParseFn) (k : Kind) (attrs : List Attr)
     stanzaHdrP parse k attrs = some (stanzaHdr k attrs) :=
   foldl_hdrStepP_ok parse k attrs _ hall
 
+theorem hdrStepP_some (parse : ParseFn) (k : Kind) (h : Hdr) (a : Attr)
+    (hp : ownAddr a = true → parse a.value ≠ none) :
+    ∃ h', hdrStepP parse k (some h) a = some h' := by
+  by_cases hs : a.name.space = ""
+  · by_cases hto : a.name.loc = "to"
+    · by_cases hv : a.value = ""
+      · exact ⟨h, by simp [hdrStepP, hs, hto, hv]⟩
+      · have := hp (by simp [ownAddr, hs, hto, hv])
+        cases hq : parse a.value with
+        | none => exact absurd hq this
+        | some v => exact ⟨{ h with to := v }, by simp [hdrStepP, hs, hto, hv, hq]⟩
+    · by_cases hfr : a.name.loc = "from"
+      · by_cases hv : a.value = ""
+        · exact ⟨h, by simp [hdrStepP, hs, hfr, hv]⟩
+        · have := hp (by simp [ownAddr, hs, hfr, hv])
+          cases hq : parse a.value with
+          | none => exact absurd hq this
+          | some v => exact ⟨{ h with frm := v }, by simp [hdrStepP, hs, hfr, hv, hq]⟩
+      · exact ⟨hdrStep k h a, by simp [hdrStepP, hs, hto, hfr]⟩
+  · exact ⟨h, by simp [hdrStepP, hs]⟩
+
+theorem foldl_hdrStepP_none_iff (parse : ParseFn) (k : Kind) (attrs : List Attr) : ∀ h : Hdr,
+    attrs.foldl (hdrStepP parse k) (some h) = none ↔
+      ∃ a ∈ attrs, ownAddr a = true ∧ parse a.value = none := by
+  induction attrs with
+  | nil => intro h; simp
+  | cons a as ih =>
+    intro h
+    simp only [List.foldl_cons]
+    by_cases hb : ownAddr a = true ∧ parse a.value = none
+    · rw [hdrStepP_bad parse k _ a hb.1 hb.2, foldl_hdrStepP_none]
+      exact ⟨fun _ => ⟨a, List.mem_cons_self .., hb⟩, fun _ => rfl⟩
+    · obtain ⟨h', hh⟩ := hdrStepP_some parse k h a (fun ho hn => hb ⟨ho, hn⟩)
+      rw [hh, ih h']
+      constructor
+      · rintro ⟨b, hbm, hbb⟩; exact ⟨b, List.mem_cons_of_mem _ hbm, hbb⟩
+      · rintro ⟨b, hbm, hbb⟩
+        rcases List.mem_cons.mp hbm with rfl | hbm
+        · exact absurd hbb hb
+        · exact ⟨b, hbm, hbb⟩
+
 /-! ### dispatches in flight -/
 
 theorem Flight.own_token (f : Framing) (fl : Flight) (i : Nat) (h : fl.own) : (fl.token f i).2.own := by
